@@ -58,7 +58,8 @@ _ints = st.one_of(st.integers(-5, 9), st.integers(-5, 9), st.integers(-5, 9),
 _reals = st.one_of(st.integers(-40, 40).map(lambda k: k / 4.0), st.integers(-40, 40).map(lambda k: k / 4.0),
                    st.sampled_from([1e308, -1e308, 5e-324, -0.0, 0.0, float("nan"), float("inf"), float("-inf"), 0.1, 1.5e300]))
 _text = st.text(alphabet=st.sampled_from(list("abcXYZ 09\"\\/\n\téΩ€\U0001f600\x00")), max_size=5)
-_bytes = st.binary(max_size=4).map(lambda b: b.decode("latin-1"))
+# zero bytes on purpose (st.binary hardly ever draws one): the C++ side has both length-carrying and NUL-terminated entry points
+_bytes = st.lists(st.sampled_from([0, 0, 1, 9, 34, 92, 97, 98, 128, 255]), max_size=5).map(lambda b: bytes(b).decode("latin-1"))
 
 
 @st.composite
